@@ -1,7 +1,9 @@
 // C08 — expressions follow the operator table and mean the same in every position.
 //
 // Bounded-exhaustive enumeration of well-typed expression trees (binary operators of all six
-// levels, the conditional, unary minus / not, filter applications, attribute and index leaves),
+// levels, the conditional, unary minus / not, filter applications, attribute and index leaves;
+// numeric strings — literals, variables and the result of `~` on integers — as operands of the
+// relational operators and of == / != against integers),
 // each printed with several choices of parentheses (minimal per the stated table, full, maximal,
 // whole-expression, and in the thorough tier every subset of the optional pairs) and of spacing,
 // and placed in every syntactic position an expression can stand in. The real engine renders every
@@ -559,6 +561,7 @@ func main() {
 		ID:    "C08",
 		Level: "exploration",
 		Rule: "every well-typed expression tree within the operator bounds of the tier (binary operators of all six levels, ?:, unary -/not, filters, " +
+			"numeric strings ('10', \"30\", '-2', variables holding \"9\" \"-1\" \"5\", i ~ i) under < > <= >= and against integers under == != < >=, " +
 			"attribute/index/literal/variable leaves assigned from fixed pools by rotation, the most discriminating well-defined rotations first), printed with " +
 			"minimal / full / maximal / whole-expression parentheses (thorough: also every subset of the optional pairs) x normal / tight / wide spacing, in every " +
 			"syntactic position (print, if, elseif, set, for, include-with, filter / function / macro argument, array element, hash value, index); " +
@@ -566,7 +569,7 @@ func main() {
 			"conditional / unary / filter attaching to the wrong operand) gives the minimal form a different value",
 		Assumptions: []string{
 			"the reference evaluator (exact integers, strings, booleans, lists of integers) is transcribed from the statement; the printer is checked against its own table-driven parser on every printed form",
-			"forms the statement leaves open are not generated: not a == b, -a ^ b, -a|abs, string + number, inexact or zero division, % on negatives, exponents outside 0..3, values beyond 2^53, bare printing of booleans, whitespace other than spaces, {..}.k on a literal, ordering of strings, substring `in`",
+			"forms the statement leaves open are not generated: not a == b, -a ^ b, -a|abs, string + number, inexact or zero division, % on negatives, exponents outside 0..3, values beyond 2^53, bare printing of booleans, whitespace other than spaces, {..}.k on a literal, ordering of strings that are not canonical decimal integers ('ab', '07', '1.0', ' 9', '1e1'), == between a non-numeric string and a number, substring `in`",
 			"matches is used with /…/-delimited patterns whose meaning is the same in every regular-expression dialect (^a, b$)",
 			"trees larger than the tier's bound, and leaf assignments other than the rotations of the fixed pools, are not explored",
 		},
@@ -584,6 +587,9 @@ func main() {
 				}
 				if c.core {
 					s += ", core operators only"
+				}
+				if c.nsRep {
+					s += ", numeric strings only under < >= (n,n), == (n,i), != (i,n) and as i ~ i"
 				}
 				if c.cross {
 					s += ", every parenthesis style x spacing + all optional-pair subsets"
